@@ -331,7 +331,7 @@ service_dirs_absorb_string_list (DBusList           **service_dirs,
       if (dir == NULL)
         {
           /* OOM - roll back (this does not need to allocate memory) */
-          _dbus_list_prepend_link (service_dirs, link);
+          _dbus_list_prepend_link (dirs, link);
           return FALSE;
         }
 
